@@ -7,7 +7,8 @@ import re
 
 import abbr_gen as g
 import format_util as fu
-from markup_util import run_cases, canon_cfg
+from markup_util import run_cases, canon_cfg, enc_config, decode_res, NotModelled, mentions_lorem
+from common import enc_str
 
 HERE = os.path.dirname(os.path.abspath(__file__))
 CORPUS = os.path.join(os.path.dirname(os.path.dirname(HERE)), 'corpus', 'C12')
@@ -33,6 +34,43 @@ def oracle_comments(out_on, out_off, cfg_on):
                 return 'without its comments item %d is %r, comment-off output has %r' % (i, x, y)
         return 'without its comments the output has %d items, the comment-off output %d' % (len(a), len(b))
     o = fu.resolved_options(cfg_on)
+    if '<!--' not in out_off and '<!--' not in o['output.newline'] + o['output.indent'] + o['output.baseIndent']:
+        # where the added text sits (C12_comments_additive): every comment stands directly after a closing tag
+        # (comment.after) or directly before an opening tag (comment.before)
+        toks = [t for t, _ in fu.scan(out_on)]
+        rev = {}
+        for k, v in (o.get('markup.attributes') or {}).items():
+            rev[str(v).lower()] = k.rstrip('*').lower()
+        trig = set(x.lower() for x in (o.get('comment.trigger') or []))
+
+        def has_trigger(open_tok):
+            names = set()
+            for nm, _ in open_tok[2]:
+                n = nm.lower()
+                names.add(n)
+                names.add(rev.get(n, n))
+            return bool(names & trig)
+        closed = {}
+        stack = []
+        strict = True       # every opening tag without '/' has its closing tag (no html-style self-closed tags)
+        for i, t in enumerate(toks):
+            if t[0] == 'open' and not t[3]:
+                stack.append(t)
+            elif t[0] == 'close':
+                if stack and stack[-1][1] == t[1]:
+                    closed[i] = stack.pop()
+                else:
+                    strict = False
+        if stack:
+            strict = False
+        for i, t in enumerate(toks):
+            if t[0] != 'comment':
+                continue
+            after_ok = bool(o['comment.after']) and i > 0 and toks[i - 1][0] == 'close' and (not strict or ((i - 1) in closed and has_trigger(closed[i - 1])))
+            before_ok = bool(o['comment.before']) and i + 1 < len(toks) and toks[i + 1][0] == 'open' and has_trigger(toks[i + 1])
+            if not (after_ok or before_ok):
+                return 'comment %r (item %d) stands neither directly after the closing tag nor directly before the opening tag of an element with a trigger attribute: %r' % (
+                    t[1], i, toks[max(0, i - 1):i + 2])
     if o['comment.before'] == '' and o['comment.after'] == '\n<!-- /[#ID][.CLASS] -->' and '<!--' not in out_off:
         nl, base, ind = o['output.newline'], o['output.baseIndent'], o['output.indent']
         pat = re.escape(nl + base) + '(?:' + re.escape(ind) + ')*' + r'<!-- /[^\r\n]*? -->' if ind else \
@@ -137,6 +175,18 @@ FIXED_DEPTH = [
     ('ul>li>a>i+{x\ny}+b', DEPTH_CFG, None),
     ('div>p{a\nb ${1} c}>x', DEPTH_CFG, 'C12:depth-multiline-field-text-with-children'),
     ('section>p{${1}l1\nl2}>em', DEPTH_CFG, 'C12:depth-multiline-field-text-with-children'),
+    # the rest of a text with a field, written after line-broken children (push_snippet path, single-line text)
+    ('p{hi ${1} there}>div', DEPTH_CFG, 'C12:depth-field-text-after-block-children'),
+    ('div>p{hi ${1} there}>div', DEPTH_CFG, 'C12:depth-field-text-after-block-children'),
+    ('div>p{hi ${1} there}>span', DEPTH_CFG, None),          # inline child: no line change, nothing deviates
+    ('div>p{hi ${1}}>div', DEPTH_CFG, None),                 # the text ends with the field: in the theorem's domain
+    # an inline element that is not line-broken although its last child is (classified in evaluate())
+    ('span>div+em+i^span>div', {'options': {'output.formatSkip': [], 'output.selfClosingStyle': 'xhtml', 'output.inlineBreak': 0}}, None),
+    ('{x}+span>div+em+i^{y}+span>div', {'options': {'output.formatSkip': [], 'output.selfClosingStyle': 'xhtml', 'output.inlineBreak': 0}}, None),
+    # text nodes with children (theorem domain: offset 0 for children of a text node)
+    ('div>{a}>p+p', DEPTH_CFG, None),
+    ('{a}>span+p', DEPTH_CFG, None),
+    ('div>{x ${1} y}>p+em', DEPTH_CFG, None),
 ]
 
 
@@ -169,6 +219,38 @@ def field_text_with_children(abbr):
     return False
 
 
+def field_text_then_children(abbr):
+    """Finding class: an element whose (single-line) text has an explicit field followed by more text and which has
+    children: push_snippet() writes the rest of the text after the children, at the level of the element."""
+    for m in re.finditer(r'\{([^{}]*\$\{[^{}]*\}[^{}]+)\}(\*\d*)?>', abbr):
+        if '\n' not in m.group(1) and '\r' not in m.group(1):
+            return True
+    return False
+
+
+CLASS_GUARD = {
+    'C12:depth-multiline-field-text-with-children': field_text_with_children,
+    'C12:depth-field-text-after-block-children': field_text_then_children,
+}
+
+ALIGN_RE = re.compile(r'^closing tag </[^>]*> at offset (\d+) stands first on its line .* opening tag \(offset (\d+)\)')
+
+
+def classify_alignment(out, cfg, bad):
+    """Known class: the element has child elements, its closing tag stands first on its line, its opening tag does NOT
+    stand first on its line (the element was not line-broken although its last child was)."""
+    m = ALIGN_RE.match(bad)
+    if not m:
+        return None
+    ooff = int(m.group(2))
+    nl = fu.resolved_options(cfg)['output.newline']
+    ls = out.rfind(nl, 0, ooff)
+    ls = 0 if ls < 0 else ls + len(nl)
+    if out[ls:ooff].strip(' \t') != '':
+        return 'C12:close-aligned-unformatted-inline-parent'
+    return None
+
+
 def load_corpus():
     out = []
     for p in sorted(glob.glob(os.path.join(CORPUS, '*.json'))):
@@ -193,6 +275,8 @@ def evaluate(kind, abbr, cfg_a, cfg_b, ra, rb):
         bad = oracle_depth(ra[1], cfg_a)
         if bad and bad.startswith(fu.ALIGN_LEAF):
             return bad, 'C12:close-aligned-inline-leaf-inner-format'
+        if bad:
+            return bad, classify_alignment(ra[1], cfg_a, bad)
         return bad, None
     if kind == 'comments':
         return oracle_comments(ra[1], rb[1], cfg_a), None
@@ -246,10 +330,11 @@ def shared_cache_sequences(ctx):
 
 
 def run(ctx):
-    ok = ctx.build(['props/C12.vo', 'run/MarkupRun.vo'])
+    ok = ctx.build(['props/C12.vo', 'run/MarkupRun.vo', 'run/DepthRun.vo'])
     if ok:
         ctx.obligations('props/C12.v')
     model = ctx.model('markup') if ok else None
+    dom_model = ctx.model('depth') if ok else None
     ctx.cov['rule'] = (
         'abbreviations from the statement AST generator (elements, groups, repeaters, ids/classes, attributes with empty/'
         'boolean/quoted/expression values, single- and multi-line text, text starting with a tag, self-closing marks, '
@@ -264,7 +349,8 @@ def run(ctx):
     groups = []
     for rec in load_corpus():
         groups.append({'abbr': rec['abbr'], 'cfgs': {'a': rec['cfg_a'], 'b': rec.get('cfg_b') or rec['cfg_a']},
-                       'checks': [(rec['kind'], 'a', 'b' if rec.get('cfg_b') is not None else None)], 'corpus': True})
+                       'checks': [(rec['kind'], 'a', 'b' if rec.get('cfg_b') is not None else None)], 'corpus': True,
+                       'class': rec.get('class')})
         ctx.cover('C12:corpus')
     for abbr, ca, cb in FIXED:
         groups.append({'abbr': abbr, 'cfgs': {'a': ca, 'b': cb}, 'checks': [('cosmetic', 'a', 'b')]})
@@ -319,18 +405,66 @@ def run(ctx):
                 ctx.cover('C12:syntax-' + syn)
                 if ra[1].count('<') >= 3:
                     ctx.nontrivial((abbr, canon_cfg(cfg_a), kind))
-            if bad and kind == 'depth' and gr.get('class') and field_text_with_children(abbr):
+            if bad and kind == 'depth' and cls is None and gr.get('class') and CLASS_GUARD[gr['class']](abbr):
                 cls = gr['class']
             if bad:
                 key = cls or 'C12:%s|%s|%s|%s' % (kind, abbr, canon_cfg(cfg_a), canon_cfg(cfg_b) if cfg_b else '')
                 ctx.property_failure(key, 'C12 %s: expand(%r) under %s%s: %s' % (
                     kind, abbr, canon_cfg(cfg_a), (' vs ' + canon_cfg(cfg_b)) if cfg_b else '', bad),
                     {'component': 'C12', 'kind': kind, 'abbr': abbr, 'cfg_a': cfg_a, 'cfg_b': cfg_b, 'why': bad})
+    theorem_domain_check(ctx, dom_model, groups, impl, index)
     shared_cache_sequences(ctx)
     for gr in groups[n_fixed + 3:n_fixed + 7]:
         r = impl[index[(groups.index(gr), 'a')]]
         ctx.sample({'abbr': gr['abbr'], 'config_a': gr['cfgs']['a'], 'config_b': gr['cfgs']['b'],
                     'output_a': r[1][:160] if r[0] == 'ok' else list(r)})
+
+
+def theorem_domain_check(ctx, dom_model, groups, impl, index):
+    """Ties the DOMAINS of C12_indent_is_depth / C12_close_aligned to the implementation: the extracted predicates
+    (formatSkip empty, cfg_depth, depth_dom, align_dom) are evaluated on the model's tree of every depth case; inside
+    the domain the oracle must hold on the implementation's output -- also for inputs of a listed finding class (a
+    finding inside the domain would contradict the theorem)."""
+    if dom_model is None:
+        return
+    todo = []
+    for gi, gr in enumerate(groups):
+        for kind, na, nb in gr['checks']:
+            if kind != 'depth':
+                continue
+            cfg = gr['cfgs'][na]
+            if mentions_lorem(gr['abbr'], cfg):
+                continue
+            try:
+                todo.append((gi, na, [1] + enc_config(cfg) + enc_str(gr['abbr'])))
+            except NotModelled:
+                ctx.cover('C12:domain-not-modelled')
+    outs = dom_model.run([w for _, _, w in todo])
+    n_in = n_al = 0
+    for (gi, na, _), w in zip(todo, outs):
+        gr = groups[gi]
+        abbr, cfg = gr['abbr'], gr['cfgs'][na]
+        d = decode_res(w, lambda r: (r.int(), r.int(), r.int(), r.int()))
+        ra = impl[index[(gi, na)]]
+        if d[0] != 'ok' or ra[0] != 'ok':
+            continue
+        skip, cfgok, ddom, adom = d[1]
+        in_depth = bool(skip and cfgok and ddom)
+        in_align = in_depth and bool(adom)
+        ctx.cover('C12:theorem-domain-depth-%s' % ('in' if in_depth else 'out'))
+        ctx.cover('C12:theorem-domain-aligned-%s' % ('in' if in_align else 'out'))
+        n_in += in_depth
+        n_al += in_align
+        bad = oracle_depth(ra[1], cfg)
+        if not bad:
+            continue
+        is_align = 'stands first on its line' in bad
+        if (in_align if is_align else in_depth):
+            ctx.property_failure('C12:in-theorem-domain|%s|%s' % (abbr, canon_cfg(cfg)),
+                                 'C12 depth: expand(%r) under %s lies in the domain of %s, yet on the implementation: %s' % (
+                                     abbr, canon_cfg(cfg), 'C12_close_aligned' if is_align else 'C12_indent_is_depth', bad),
+                                 {'component': 'C12', 'kind': 'depth', 'abbr': abbr, 'cfg_a': cfg, 'cfg_b': None, 'why': bad})
+    ctx.cov['theorem_domains'] = {'depth_cases': len(todo), 'in_C12_indent_is_depth': n_in, 'in_C12_close_aligned': n_al}
 
 
 def replay(ctx, obj):
